@@ -24,6 +24,7 @@ TLC runs
                         complete up to the merge horizon), ScaleLaw (integer side: rings, Aut+, sort keys, the 0.98 test
                         of m.G are those of G)
   Orient_asis           block ends as written: Complete must FAIL (design-level counterexample, F4)
+  Orient_own            ownership machine: invariants Owned, ResultsStand; its histories are replayed (see Ownership)
   Orient_trace_q / _t   MODE "trace": the sorted pair order recorded from the REAL filter_pairs is validated
                         (permutation of ring1 x ring2, exact cosines never decrease) and the machine is run on
                         it for both block-end variants -> expected kept list, per pair the equivalent kept
@@ -38,6 +39,19 @@ Instances replayed: every cell of the configuration at k = 0 with every rotation
 seed-chosen rotation each.  Every instance goes through every route below and is judged on its own; in addition
 the scale law is compared bit for bit against the k = 0 instance (kept list, cosines, BT = s.BT0, UBIlist =
 s.UBIlist0): a difference there is a conformance note - the verdict is the instance's own judgement.
+
+Ownership (Orient.tla, third machine; Orient_own.cfg): a unit cell is a snapshot of the six numbers it was made from
+and an orient() result a snapshot of the answer.  EVERY real cell of this check is made from a float64 array the caller
+keeps using (a 6-vector, a row / a strided column of a table of cells, a slice of a longer vector; some scaled
+instances from a list) which is overwritten with a very different, much smaller cell right after the constructor
+returns and again after makerings; EVERY orient() call gets its g-vectors in arrays of the caller (rows / strided
+columns in turn) that are overwritten as soon as it returns; the arrays handed out by the previous call are re-judged
+after each call, the object (lattice_parameters, B, metric, ring table) and what getanglehkls handed out at the
+beginning are re-judged after all calls.  A ring table that differs from the model's while the same numbers given as
+a list give the model's rings is a violation (not a C03 set-aside).  The histories of the machine (overwrite the
+parameter array | makerings | orient, two observations x nearest / crange | overwrite the g arrays; depth 5 x five
+constructor arguments) are replayed on the hexagonal cell and on seed-chosen others with an audit of the object and of
+every result handed out so far after every operation.
 
 Binding (mode A, with the tie order of the unstable float sort taken from the code - see Orient.tla)
   unitcell.unitcell(cell, centring).makerings      ring table must be the model's (else the cell is set aside:
@@ -370,6 +384,136 @@ def check_cache(rc, rec, pairs, reals):
     return probs
 
 
+def standing_problems(rc):
+    """what getanglehkls handed out for the recorded ring pairs (the cache entries themselves) still has the recorded
+    content after every orient / quickorient / direct-route call of the run; the ring table is still the model's"""
+    probs = []
+    for (r1, r2), real in sorted(rc.reals.items()):
+        if real.get("error") or "val" not in real:
+            continue
+        try:
+            pairs, cangs, matrs = real["val"]
+            same = ([(tuple(int(v) for v in a), tuple(int(v) for v in b)) for a, b in pairs] == real["kept"]
+                    and [float(c) for c in cangs] == real["cangs"]
+                    and len(matrs) == len(real["matrs"])
+                    and all(np.array_equal(np.asarray(m, float).reshape(3, 3), m0) for m, m0 in zip(matrs, real["matrs"])))
+        except Exception:       # noqa
+            same = False
+        if not same:
+            probs.append("what getanglehkls(%d,%d) handed out (hkl pairs, cosines, BT matrices) no longer holds what it held "
+                         "when it was handed out" % (r1 - 1, r2 - 1))
+            break
+    rp = rc.ring_problems()
+    if rp:
+        probs.append("the ring table is no longer the cell's: %s" % rp[0])
+    return probs
+
+
+def tlc_own(chk, workers=16):
+    res = common.run_tlc("Orient", os.path.join(common.SPECS, "Orient_own.cfg"), workers=workers, timeout=600, coverage=True)
+    if res.violated:
+        raise common.MachineryError("Orient ownership machine violates %s" % res.violated)
+    chk.add_tlc("Orient ownership", res, require_cover=["OScribP", "ORings", "OOrient", "OScribG"])
+    return [(r["how"], r["hist"]) for r in _parse(res, "Orient ownership") if r["kind"] == "own"]
+
+
+def own_observations(rc):
+    """two observations of one grain for the ownership histories: a ring pair as far out in the ring table as possible
+    (the reflections most sensitive to the hkl search box) and two of its hkl pairs with |cos| < 0.98 whose angle class
+    is alone within twice the narrow crange; returns r1, r2, [(ha, hb, decided)]: decided = one class of pairs only
+    subtends the angle (the nearest lookup must then give the grain; otherwise only the crange lookup must)"""
+    best = None
+    for r2 in range(rc.nr, 0, -1):
+        for r1 in range(r2 - 1, 0, -1):
+            order = [[list(a), list(b)] for a in rc.rings[r1 - 1] for b in rc.rings[r2 - 1]]
+            N, D, keys = L.pair_keys(rc, order)
+            ranks, gap = L.class_ranks(keys)
+            if gap <= L.MIN_GAP or len(order) > 600:
+                continue
+            counts = L.class_counts(rc, order, ranks)
+            cosv = N / np.sqrt(D.astype(float))
+            rk = np.asarray(ranks)
+            ok = [x for x in range(len(order)) if L.is_small(N[x], D[x])
+                  and np.all((rk == rk[x]) | (np.abs(cosv - cosv[x]) > 2 * L.CR_NARROW))]
+            dec = [x for x in ok if counts[ranks[x]] == 1]
+            if len(dec) >= 2:
+                return r1, r2, [(order[dec[0]][0], order[dec[0]][1], True), (order[dec[len(dec) // 2]][0], order[dec[len(dec) // 2]][1], True)]
+            if len(ok) >= 2 and best is None:
+                best = (r1, r2, [(order[ok[0]][0], order[ok[0]][1], False), (order[ok[len(ok) // 2]][0], order[ok[len(ok) // 2]][1], False)])
+    if best is None:
+        raise common.MachineryError("no ring pair of %s with two hkl pairs whose angle class is isolated" % rc.name)
+    return best
+
+
+def replay_own(chk, ucmod, crec, nr, hists):
+    """every history of the ownership machine on a fresh real cell made from what the history says (how); after every
+    operation the object (parameters, B, metric, ring table once made) and every result handed out so far (the arrays
+    themselves) are re-judged: the object is the cell of the numbers it was made from, every orientation handed out
+    still indexes the grain of the observation it was made from"""
+    viol = []
+    ref = L.RealCell(ucmod, crec, 0, how="list", rings=False)
+    r1, r2, obs = own_observations(ref)
+    rots = [L.rot_matrix(r) for r in crec["rots"]]
+    norient = 0
+    for how, hist in hists:
+        rc = L.RealCell(ucmod, crec, 0, how=how, rings=False)
+        outs = []           # (handed-out list object, its members, copies, UB of the grain, description)
+        gbuf = np.zeros((2, 3))
+        bad = None
+        for i, op in enumerate(hist):
+            try:
+                if op[0] == "scribp":
+                    rc.scribble(rc.version + 1)
+                elif op[0] == "rings":
+                    rc.makerings()
+                elif op[0] == "scribg":
+                    gbuf[...] = gbuf[::-1] * 2.25 - 0.625
+                elif op[0] == "orient":
+                    ha, hb, decided = obs[op[1] - 1]
+                    UB = np.dot(rots[(op[1] + common.seed()) % len(rots)], rc.B)
+                    gbuf[0] = np.dot(UB, np.array(ha, float))
+                    gbuf[1] = np.dot(UB, np.array(hb, float))
+                    if op[2] == 0:
+                        rc.cell.orient(r1 - 1, gbuf[0], r2 - 1, gbuf[1])
+                    else:
+                        rc.cell.orient(r1 - 1, gbuf[0], r2 - 1, gbuf[1], crange=L.CRS[op[2]])
+                    norient += 1
+                    held = rc.cell.UBIlist
+                    outs.append((held, list(held), [np.array(u, float) for u in held], UB if (decided or op[2] != 0) else None,
+                                 "orient(%d, U.B.%s, %d, U.B.%s%s)" % (r1 - 1, ha, r2 - 1, hb, "" if op[2] == 0 else ", crange=%g" % L.CRS[op[2]])))
+            except Exception as e:      # noqa
+                bad = "%s raised %r" % (op[0], e)
+            # ---- audit
+            if bad is None:
+                probs = rc.ownership_problems()
+                if rc.has_rings and not probs:
+                    probs = ["ring table: " + t for t in rc.ring_problems()[:1]]
+                for held, members, copies, UB, what in outs:
+                    if probs:
+                        break
+                    now = [np.asarray(u, float) for u in held]
+                    if len(now) != len(copies) or any(a is not b for a, b in zip(list(held), members)) or \
+                            not all(np.array_equal(a, b) for a, b in zip(now, copies)):
+                        probs.append("the result of %s no longer holds what it held when it was handed out" % what)
+                    elif UB is not None and not L.found_true(rc, now, UB):
+                        probs.append("no orientation handed out by %s indexes the generating grain" % what)
+                if probs:
+                    bad = probs[0]
+            if bad is not None:
+                viol.append(("property", "ownership history (cell made from %s) %s: after operation %d (%s): %s" % (
+                    rc.describe_how(), [o[0] if o[0] != "orient" else "orient%d/%d" % (o[1], o[2]) for o in hist], i + 1, op[0], bad),
+                    {"own": {"how": how, "hist": hist}}))
+                break
+        chk.traces += 1
+        chk.case(("own", crec["cell"], how, tuple(map(tuple, hist))))
+    chk.notes["ownership_histories"] = len(hists)
+    chk.notes["ownership_orient_calls"] = norient
+    chk.notes["ownership_observations"] = {"rings": [r1 - 1, r2 - 1], "pairs": obs}
+    if hists and not viol and norient < len(hists):
+        raise common.MachineryError("vacuity: %d orient calls in %d ownership histories" % (norient, len(hists)))
+    return viol
+
+
 def tlc_cache(chk, workers=16):
     res = common.run_tlc("Orient", os.path.join(common.SPECS, "Orient_cache.cfg"), workers=workers, timeout=600, coverage=True)
     if res.violated:
@@ -378,6 +522,7 @@ def tlc_cache(chk, workers=16):
     return [r["hist"] for r in _parse(res, "Orient cache") if r["kind"] == "cache"]
 
 
+OWN_STRIDE = (4, 24)    # every 4th (thorough) / 24th (quick) ownership history (a seed-chosen residue) per cell
 CACHE_TOLS = {1: 0.001, 2: 0.04}      # version 2 merges neighbouring shells: the ring table changes
 
 
@@ -388,10 +533,17 @@ def replay_cache(chk, ucmod, crec, nr, hists):
     mism = 0
     for hist in hists:
         rc = L.RealCell(ucmod, crec)
+        if rc.build_error or rc.ownership_problems():
+            viol.append(("property", "cache history %s: %s" % (hist, (rc.ownership_problems() + [rc.build_error])[0]), {"hist": hist}))
+            break
         with L.Recorder(ucmod) as rec:
             for op in hist:
                 if op[0] == "retol":
-                    rc.cell.makerings(rc.limit, tol=CACHE_TOLS[op[1]])
+                    try:
+                        rc.cell.makerings(rc.limit, tol=CACHE_TOLS[op[1]])
+                    except Exception as e:      # noqa
+                        viol.append(("property", "cache history %s: makerings raised %r" % (hist, e), {"hist": hist}))
+                        break
                     continue
                 r1, r2, hit = op[1] - 1, op[2] - 1, op[3]
                 n0 = len(rec.calls)
@@ -402,8 +554,12 @@ def replay_cache(chk, ucmod, crec, nr, hists):
                     break
                 if (len(rec.calls) - n0 == 0) != bool(hit):
                     mism += 1
-                s1 = set(tuple(h) for h in rc.cell.ringhkls[rc.cell.ringds[r1]])
-                s2 = set(tuple(h) for h in rc.cell.ringhkls[rc.cell.ringds[r2]])
+                try:
+                    s1 = set(tuple(h) for h in rc.cell.ringhkls[rc.cell.ringds[r1]])
+                    s2 = set(tuple(h) for h in rc.cell.ringhkls[rc.cell.ringds[r2]])
+                except Exception as e:      # noqa
+                    viol.append(("property", "cache history %s: rings %d, %d cannot be read from the ring table: %r" % (hist, r1, r2, e), {"hist": hist}))
+                    break
                 if any(tuple(a) not in s1 or tuple(b) not in s2 for a, b in pairs) or not pairs:
                     viol.append(("property", "getanglehkls(%d,%d) handed out hkl pairs that are not reflections of the rings in "
                                  "force (stale cache entry) after %s" % (r1, r2, hist), {"hist": hist}))
@@ -424,6 +580,7 @@ class Stats(L.OrientStats):
         self.merged_pairs = 0       # hkl pairs judged whose |g| differs from the d* of the ring it is assigned to
         self.near_cut_below = {}    # per cell: largest |cos| < 0.98 among the pairs orient() was called for
         self.near_cut_above = {}    # per cell: smallest |cos| >= 0.98 among the non-collinear pairs set aside
+        self.built = {}             # what the constructors were given (c05_lib.HOWS): number of instances
 
 
 def instance_scales(tier, crec, idx, only_k=None):
@@ -444,6 +601,7 @@ def process(chk, ucmod, rt, cells, nr, tier, only=None, perturb=None, imod=None,
     stats = Stats()
     rcs, lines, meta, linekey = {}, [], [], {}
     set_aside = {}
+    viol = []
     with L.Recorder(ucmod) as rec:
         for idx, cid in enumerate(sorted(cells)):
             if only and cid != only[0]:
@@ -451,10 +609,24 @@ def process(chk, ucmod, rt, cells, nr, tier, only=None, perturb=None, imod=None,
             ks = instance_scales(tier, cells[cid], idx, only[3] if only else None) if scales else [0]
             nrot = len(cells[cid]["rots"])
             for k in ks:
-                rc = L.RealCell(ucmod, cells[cid], k)
-                rp = rc.ring_problems()
+                # the constructor is given an array the caller keeps using: overwritten with a very different cell right
+                # after construction and again after makerings (c05_lib.RealCell; Orient.tla, ownership)
+                rc = L.RealCell(ucmod, cells[cid], k, how=L.how_of(cid, k))
+                stats.built[rc.how] = stats.built.get(rc.how, 0) + 1
+                own = rc.ownership_problems()
+                for ptxt in own:
+                    viol.append((cid, k, 1, 1, "property", "ownership: " + ptxt, {"how": rc.how}))
+                rp = [rc.build_error] if rc.build_error else rc.ring_problems()
                 if rp:
-                    set_aside[rc.name] = rp[:3]
+                    # the rings of a cell made from a list of the same numbers tell whose doing the difference is
+                    twin = L.RealCell(ucmod, cells[cid], k, how="list") if rc.how != "list" else None
+                    if twin is not None and not twin.build_error and not twin.ring_problems():
+                        viol.append((cid, k, 1, 1, "property", "ownership: the cell was made from %s which the caller overwrote "
+                                     "with another cell before makerings ran: the ring table is not the cell's (%s), while the "
+                                     "same numbers given as a list give the model's rings" % (rc.describe_how(), "; ".join(rp[:2])),
+                                     {"how": rc.how}))
+                    else:
+                        set_aside[rc.name] = rp[:3]
                     continue
                 rcs[(cid, k)] = rc
                 # k = 0: every rotation; other scales: one, seed-chosen (the k = 0 instance keeps its results for the law)
@@ -474,11 +646,12 @@ def process(chk, ucmod, rt, cells, nr, tier, only=None, perturb=None, imod=None,
                         meta.append((t, cid, k, r1, r2))
         chk.notes["cells_set_aside_ring_table_differs"] = set_aside
         if not any(k == 0 for (_, k) in rcs):
+            if viol:
+                return stats, viol, rcs     # (nothing left to judge: the violations found while building are the result)
             raise common.MachineryError("no cell whose real ring table equals the model's: %s" % set_aside)
         chk.notes["instances_replayed"] = sorted(rc.name for rc in rcs.values())
         chk.notes["trace_lines"] = len(lines)
         models = tlc_trace(chk, nr, lines, tier if not only else "replay")
-        viol = []
         stores = {}
         for (t, cid, k, r1, r2) in sorted(meta, key=lambda m: (m[1], m[2] != 0, m[2], m[3], m[4])):      # k = 0 first
             rc = rcs[(cid, k)]
@@ -509,6 +682,12 @@ def process(chk, ucmod, rt, cells, nr, tier, only=None, perturb=None, imod=None,
             for key, real in rc.reals.items():
                 if "order" not in real:
                     viol.append((cid, k, key[0], key[1], "property", "getanglehkls failed: %s" % real.get("error"), None))
+        if perturb is None:
+            # after all the calls: the object still is the cell it was made from and what getanglehkls handed out at the
+            # beginning still holds what was recorded then (nothing in between wrote into it)
+            for (cid, k), rc in sorted(rcs.items()):
+                for ptxt in rc.ownership_problems() + standing_problems(rc):
+                    viol.append((cid, k, 1, 1, "property", "after all calls: " + ptxt, {"how": rc.how}))
         if not only and perturb is None:
             for (cid, k), rc in rcs.items():
                 if k != 0:
@@ -541,7 +720,7 @@ def report(chk, cells, nr, tier, viol):
     same = 0
     for cid, k, r1, r2, kind, text, ex in sorted([v for v in viol if v[4] in rank],
                                                  key=lambda v: (rank[v[4]], v[1] != 0, v[0], v[2], v[3], abs(v[1]))):
-        key = (cid, r1, r2, kind, text[:40])
+        key = (cid, "ownership") if text.startswith("ownership:") else (cid, r1, r2, kind, text[:40])
         if key in seen:
             same += (k != 0)
             continue
@@ -576,7 +755,10 @@ def run(tier, replay=None):
                 "recorded and its kept list compared with the model run on the recorded order; orient() is then called "
                 "for EVERY hkl pair with |cos| < 0.98 x rotation x (nearest, crange 0.002, crange 0.71), and orient_BL / "
                 "BTmat+quickorient / ubi_fit_2pks for every such pair with its true indices; non-trivial = "
-                "every orient call (distinct by instance, rings, pair, rotation, mode)")
+                "every orient call (distinct by instance, rings, pair, rotation, mode); every real cell is made from an "
+                "array the caller overwrites with another cell after construction and after makerings, every g-vector array "
+                "is overwritten after the call, earlier results are re-judged after later calls; + the histories of the "
+                "ownership machine (quick: every 24th, two cells)")
     chk.assumptions = [
         "rings are makerings' rings of exact integer metrics (runs of Q within the ring tolerance of the first member: one "
         "shell for the small forms, merged families for ortM / triM / tetN / monN); the real ring table is compared with the model's, cells where it "
@@ -591,6 +773,9 @@ def run(tier, replay=None):
         "conformance only (counted as ambiguous_nearest); pairs with |cos| >= 0.98 are outside the code's documented domain",
         "irrational finishing (B = Cholesky factor, triads, U from exact rationals) is done by the harness in binary64; "
         "tolerance 1e-9 relative",
+        "ownership is part of the property as stated: 'the unit cell's parameters' are those the object was made from and "
+        "a generated orientation is a value - neither changes when the caller re-uses the arrays he passed in; arrays the "
+        "object hands out (getanglehkls' cache entry, B, lattice_parameters) are never written to by the harness",
         "scaled instances are made from the k = 0 quantities by multiplication with exact powers of two and are given the "
         "ring tolerance 0.001 / 2^k (makerings' tolerance is an absolute d* difference: with the default the rings of a "
         "1000 A cell would merge, which is C03's subject)"]
@@ -603,7 +788,9 @@ def run(tier, replay=None):
         bad = []
         chk.violation = lambda what, o: (bad.append(what), print("  violation: %s" % what))
         ex = obj.get("example") or {}
-        if "hist" in ex:
+        if "own" in ex:
+            viol = [(crec["cell"], 0, 1, 1) + v for v in replay_own(chk, ucmod, crec, nr, [(ex["own"]["how"], ex["own"]["hist"])])]
+        elif "hist" in ex:
             viol = [(crec["cell"], 0, 1, 1) + v for v in replay_cache(chk, ucmod, crec, nr, [ex["hist"]])]
         else:
             stats, viol, _ = process(chk, ucmod, rt, cells, nr, obj.get("tier", "quick"),
@@ -670,12 +857,29 @@ def run(tier, replay=None):
     if nprop == 0 and (nscaled == 0 or stats.law_exact + stats.law_differs < 100 * nscaled or stats.direct_routes < 1000):
         raise common.MachineryError("vacuity: %d scaled instances, %d scale law comparisons, %d direct route pairs"
                                     % (nscaled, stats.law_exact + stats.law_differs, stats.direct_routes))
+    chk.notes["instances_built_from"] = stats.built
+    if nprop == 0 and any(stats.built.get(h, 0) == 0 for h in L.HOWS_ARRAY):
+        raise common.MachineryError("vacuity: constructor routes used %s" % stats.built)
     hists = tlc_cache(chk)
     if tier == "quick":
         hists = hists[::8]
-    ccell = "hexP" if ("hexP", 0) in rcs else sorted(rcs)[0][0]
+    ccell = "hexP" if ("hexP", 0) in rcs or not rcs else sorted(rcs)[0][0]
+    if ccell not in cells:
+        ccell = sorted(cells)[0]
     for kind, text, ex in replay_cache(chk, ucmod, cells[ccell], nr, hists):
         viol.append((ccell, 0, 1, 1, kind, text, ex))
+    # ownership of the constructor's argument and of the results handed out: every history of the third machine, on the
+    # hexagonal cell (families are cut by a box that is too small) and on one seed-chosen other cell
+    ohists = sorted(tlc_own(chk), key=lambda h: json.dumps(h))
+    others = [c for c in sorted(cells) if c != ccell and ((c, 0) in rcs or not rcs)]
+    nother = 1 if tier == "quick" else 3
+    ocells = [ccell] + [others[(common.seed() + 3 * i) % len(others)] for i in range(min(nother, len(others)))]
+    ocells = [c for i, c in enumerate(ocells) if c not in ocells[:i]]
+    stride = OWN_STRIDE[tier == "quick"]
+    for n, oc in enumerate(ocells):
+        sel = ohists[(common.seed() + 5 * n) % stride::stride]
+        for kind, text, ex in replay_own(chk, ucmod, cells[oc], nr, sel)[:4]:
+            viol.append((oc, 0, 1, 1, kind, text, ex))
     report(chk, cells, nr, tier, viol)
     chk.exhaustive = (tier == "thorough") and not chk.notes["cells_set_aside_ring_table_differs"]
     if tier == "thorough":
@@ -705,6 +909,39 @@ def selftest(ucmod=None, rt=None, cells=None, nr=4):
                 return          # the unchanged tree already fails here: nothing to self-test against
         elif not viol:
             raise common.MachineryError("selftest: perturbation %r of UBIlist accepted" % pert)
+    # a constructor that keeps the caller's array, an orient that hands out one work array again and again: each must
+    # be reported
+    orig_init = ucmod.unitcell.__init__
+
+    def aliasing(self, lattice_parameters, *a, **k):
+        orig_init(self, lattice_parameters, *a, **k)
+        if isinstance(lattice_parameters, np.ndarray):
+            self.lattice_parameters = lattice_parameters
+    ucmod.unitcell.__init__ = aliasing
+    try:
+        chk = common.Check(PROP, "selftest")
+        stats, viol, _ = process(chk, ucmod, rt, {cid: cells[cid]}, nr, "quick", only=(cid, 1, 3, 0))
+        vo = replay_own(chk, ucmod, cells[cid], nr, [("column", [["scribp", 0, 0], ["rings", 0, 0], ["orient", 1, 2]])])
+    finally:
+        ucmod.unitcell.__init__ = orig_init
+    if not [v for v in viol if v[4] == "property" and "ownership" in v[5]] or not vo:
+        raise common.MachineryError("selftest: a unit cell that keeps the caller's parameter array was accepted")
+    orig_orient = ucmod.unitcell.orient
+    work = np.zeros((3, 3))
+
+    def shared(self, *a, **k):
+        orig_orient(self, *a, **k)
+        work[...] = self.UBIlist[0]
+        self.UBIlist[0] = work
+    ucmod.unitcell.orient = shared
+    try:
+        chk = common.Check(PROP, "selftest")
+        stats, viol, _ = process(chk, ucmod, rt, {cid: cells[cid]}, nr, "quick", only=(cid, 1, 3, 0))
+    finally:
+        ucmod.unitcell.orient = orig_orient
+    if not [v for v in viol if v[4] == "property" and "PREVIOUS" in v[5]]:
+        raise common.MachineryError("selftest: an orient() handing out the same work array at every call was accepted")
+
     # kept list edited: must not be accepted as either model variant
     chk = common.Check(PROP, "selftest")
     orig = ucmod.filter_pairs
